@@ -36,4 +36,28 @@ theorem small_const_mul_inexact :
     ∃ x c : Int, InRange .uint32 x ∧ -4194304 < c ∧ c < 4194304 ∧ ¬ (x * c ≤ two53) :=
   ⟨4294967295, 4194303, by decide, by decide, by decide, by decide⟩
 
+/-- `f32_records_fround`: in the table extracted from the current source every float32 arithmetic operation is emitted through
+    `fixNumber`, and `fixNumber(Float32)` is `$fround(%s)`:
+    `+ -` : one record for all kinds, `fixNumber("%e %t %e")`;
+    `*`   : the fall-through record after the 32-bit integer kinds, `fixNumber("%e * %e")`;
+    `/`   : the record guarded by `basic.Kind() == types.Float32`, `fixNumber("%e / %e")` (the only unrounded float record is float64's);
+    and there is no record outside the known sections (no special path in front of the operator switch that could translate a
+    float32 operand differently). With `GV.Props.C06.f32_nested` this is "rounded after EVERY float32 operation, for every
+    operand shape". -/
+theorem f32_records_fround :
+    arithRecords GV.Generated.opTable =
+      [("token.ADD, token.SUB", "", "return fc.fixNumber(fc.formatExpr(\"%e %t %e\", e.X, e.Op, e.Y), basic)"),
+       ("token.MUL", "(basic.Kind()) in {types.Int32, types.Int}", "return fc.formatParenExpr(\"$imul(%e, %e)\", e.X, e.Y)"),
+       ("token.MUL", "(basic.Kind()) in {types.Uint32, types.Uint, types.Uintptr}", "return fc.formatParenExpr(\"$imul(%e, %e) >>> 0\", e.X, e.Y)"),
+       ("token.MUL", "after switch (basic.Kind()) {types.Int32, types.Int | types.Uint32, types.Uint, types.Uintptr}",
+        "return fc.fixNumber(fc.formatExpr(\"%e * %e\", e.X, e.Y), basic)"),
+       ("token.QUO", "isInteger(basic)", "stmt: q := fc.newLocalVariable(\"_q\")"),
+       ("token.QUO", "isInteger(basic)",
+        "return fc.formatExpr(`(%1s = %2e / %3e, (%1s === %1s && %1s !== 1/0 && %1s !== -1/0) ? %4s : $throwRuntimeError(\"integer divide by zero\"))`, q, e.X, e.Y, fc.fixNumber(fc.formatExpr(\"%s\", q), basic))"),
+       ("token.QUO", "!(isInteger(basic)) && basic.Kind() == types.Float32", "return fc.fixNumber(fc.formatExpr(\"%e / %e\", e.X, e.Y), basic)"),
+       ("token.QUO", "!(isInteger(basic)) && !(basic.Kind() == types.Float32)", "return fc.formatExpr(\"%e / %e\", e.X, e.Y)")] ∧
+    fixFloat32 GV.Generated.opTable = ["return fc.formatExpr(\"$fround(%s)\", value)"] ∧
+    otherSections GV.Generated.opTable = [] := by
+  refine ⟨by rfl, by rfl, by rfl⟩
+
 end GV.Props.C06
